@@ -234,6 +234,28 @@ theorem at_most_once_block2_partial (single : Bool) (cap : Nat) (junk : UInt8) (
     fun off p total hb => ⟨(h.dLast off p total hb).2.2.2.1, (h.dLast off p total hb).2.2.2.2⟩,
     h.grow, h.complete⟩
 
+/-- Per-block mode over a whole run, for EVERY sequence of genuine responses from a fresh client (any order, duplicates,
+losses, ETag restarts): with the ghost list `seen` of block numbers handed to the handler since the lg_crcv was last
+(re-)initialised (`seenAfter`), a block handed over is never in `seen` (at most once), and when the completing block
+is handed over every other block of the body is in `seen` — so the (offset, length) pairs the handler got in that
+lifetime are the slices of the body (`never_wrong_body_block2_partial`), pairwise different, and all of them: they
+tile the body exactly.  (`TilesOnce` is that statement written out along the run.) -/
+theorem per_block_tiles_once_partial (cap : Nat) (junk : UInt8) (body : Bytes) (sz : Option Nat) (rs : List Resp)
+    (hsz : ∀ t, sz = some t → t ≤ body.length) (hadm : Admissible2 false cap junk body sz none rs) :
+    TilesOnce cap junk body none [] rs :=
+  tilesOnce_run cap junk body sz hsz rs none [] (by intro s hs; cases hs)
+    (by intro k; simp [effRecv, covers_nil]) hadm
+
+set_option maxRecDepth 100000 in
+/-- the ghost list along a concrete run (40 bytes, 16-byte blocks, block 1 duplicated): [0], [1,0], [1,0], released -/
+example :
+    let body : Bytes := (List.range 40).map (fun i => UInt8.ofNat i)
+    let rsp (k m : Nat) : Resp := { blk := some (k, m, 0), payload := slice body 0 k }
+    let step (a : Option Crcv × List Nat) (r : Resp) : Option Crcv × List Nat :=
+      ((crcvStep false 4 0 a.1 r).1, seenAfter (crcvStep false 4 0 a.1 r).1 a.2 (numOf r) (crcvStep false 4 0 a.1 r).2)
+    ([rsp 0 1, rsp 1 1, rsp 1 1].foldl step (none, [])).2 = [1, 0] ∧
+    ([rsp 0 1, rsp 1 1, rsp 1 1, rsp 2 0].foldl step (none, [])) = (none, []) := by decide
+
 set_option maxRecDepth 100000 in
 /-- non-vacuity: a 100-byte body in 32-byte blocks, ETag on every block, block 1 duplicated: three requests, one delivery -/
 example :
